@@ -61,6 +61,7 @@ void p3_lazy(void) {
     for (int i = 0; i < P3_PREFIX; ++i) IN.str[i] = 'a';
 #endif
     IN.dep.norm_out[DEP_STR_MAX] = '\0';
+    { size_t full = 0; while (IN.str[full] != '\0') full++; VASSUME(IN.dep.probe <= full); }
     dep_install(&IN.dep);
     polyseed_str norm;
     size_t r = utf8_nfkd_lazy(IN.str, norm);
@@ -77,9 +78,7 @@ void p3_lazy(void) {
     }
     if (nonascii) {
         VASSERT(L_nfkd_calls == 1 && L_nfkd_out == norm, "P3 non-ASCII input goes to the injected NFKD, once, writing into the caller's buffer");
-        for (int i = 0; i < DEP_IN_COPY && i <= P3_LEN; ++i) VASSERT(L_nfkd_in_copy[i] == IN.str[i] || (i > 0 && L_nfkd_in_copy[i - 1] == '\0'), "P3 the injected NFKD receives the caller's string");
-        { size_t full = 0; while (IN.str[full] != '\0') full++;
-          VASSERT(L_nfkd_in_len == full, "P3 the injected NFKD receives the whole string, however long (normalisation may shorten it)"); }
+        VASSERT(L_nfkd_probe_byte == IN.str[IN.dep.probe], "P3 the injected NFKD receives the caller's whole string, however long (normalisation may shorten it)");
         size_t e = 0; while (IN.dep.norm_out[e] != '\0') e++;
         VASSERT(r == e, "P3 the normaliser's result is returned unchanged");
     } else {
